@@ -146,6 +146,33 @@ example :
     x.s.heap.map (·.ts) = [2] ∧ holds ⟨5, 2000, 1, 1000⟩ x.s.trace.reverse = true := by
   decide +kernel
 
+/-- The shared queue alone (level L1 of the harness drives the real `memoryQueue` against this):
+a dequeue hands out an entry that is minimal for (priority, timestamp) among ALL entries — whatever
+was enqueued, re-enqueued or removed (from any position) before — and removes exactly that entry. -/
+theorem shared_queue_pop_min (q : QSt) (id : Nat) (h : q.deq.2 = some id) :
+    ∃ m ∈ q.heap, m.id = id ∧ q.deq.1.heap = q.heap.erase m ∧ ∀ x ∈ q.heap, hle m x = true := by
+  unfold QSt.deq at h ⊢
+  cases hm : minItem q.heap with
+  | none => simp [hm] at h
+  | some m =>
+    simp only [hm] at h ⊢
+    simp at h
+    exact ⟨m, minItem_mem _ _ hm, h, rfl, minItem_le _ _ hm⟩
+
+/-- non-vacuity: priorities 20,10,30,40,20,50 are enqueued, the first 20 is removed from the middle,
+everything is dequeued: ids come out as 10,20,30,40,50 (ids 1,4,2,3,5), and the Spec predicate of
+the shared queue holds of that history. -/
+example :
+    let q0 := (((((({} : QSt).enq 0 20).enq 1 10).enq 2 30).enq 3 40).enq 4 20).enq 5 50
+    let q1 := q0.rm 0
+    let (q2, a) := q1.deq; let (q3, b) := q2.deq; let (q4, c) := q3.deq; let (q5, d) := q4.deq; let (_, e) := q5.deq
+    [a, b, c, d, e] = [some 1, some 4, some 2, some 3, some 5] ∧
+    qHolds [.enq 0 20, .enq 1 10, .enq 2 30, .enq 3 40, .enq 4 20, .enq 5 50, .rm 0,
+            .deq (some 1), .deq (some 4), .deq (some 2), .deq (some 3), .deq (some 5), .deq none, .size 0] = true ∧
+    qHolds [.enq 0 20, .enq 1 10, .enq 2 30, .enq 3 40, .enq 4 20, .enq 5 50, .rm 0,
+            .deq (some 1), .deq (some 2)] = false := by
+  decide +kernel
+
 /-! ### (B) bounded queue -/
 
 /-- Under every schedule (overlapping arrivals and shutdown included) the number of waiting
@@ -188,6 +215,42 @@ example :
     let x11 := applyOp ⟨2, 1000, 0, 1000⟩ x10 .tick
     (x10.s.reqs 0).res = .pending ∧ (x10.s.reqs 0).pc = .parked ∧ (x11.s.reqs 0).res = .timeout ∧
     (x11.s.reqs 0).pc = .removed := by
+  decide +kernel
+
+/-- A TTL scan that finds a request in the loop's hands (`StartProcessing` fails) loses nothing:
+under every schedule, whenever the watcher is idle and a request is in the watch list, back in
+state `enqueued` and past its TTL, the watcher's NEXT scan rejects it (three watcher steps: scan,
+take it — at the position `k` the map order gives it —, signal): result `timeout`, one Done. -/
+theorem expired_waiter_rejected_by_next_scan (cfg : Cfg) (t0 : Nat) (acts : List Act) (i : Nat) :
+    let s := run cfg (St.init t0) acts
+    s.watcher = .idle → i < s.n → (s.reqs i).inMap = true → (s.reqs i).st = .enqueued →
+    (s.reqs i).arrival + cfg.ttl < s.now →
+    ∃ k, let s' := run cfg s [.wScan, .wStep k, .wStep 0]
+         (s'.reqs i).res = .timeout ∧ (s'.reqs i).st = .processed ∧ (s'.reqs i).dones = 1 ∧ s'.panicked = false := by
+  intro s hw hi hm hs he
+  have hA : InvA s := invA_run cfg acts (St.init t0) (invA_init t0)
+  have hwg : (s.reqs i).wg = 1 := by rw [hA.wg i, hs]; simp
+  have hdn : (s.reqs i).dones = 0 := by rw [hA.dn i, hs]; simp
+  have hmem : i ∈ idsWhere s (fun r => r.inMap && decide (r.arrival + cfg.ttl < s.now)) := by
+    unfold idsWhere
+    simp [hi, hm, he]
+  obtain ⟨k, hk⟩ := List.getElem?_of_mem hmem
+  refine ⟨k, ?_⟩
+  have hlt : ¬ ((s.reqs i).wg - 1 < 0) := by omega
+  simp only [run, List.foldl, step, hA.np, Bool.false_eq_true, if_false, stepCore, stepScan, hw, if_true,
+    stepWatcher, hk, hm, hs, and_self, St.upd, St.signal, hlt, St.emit, hdn]
+
+/-- non-vacuity (scenario family `a…` of the harness): request 1's attempt is refused and the loop
+stands before the re-push while the clock passes 1's TTL; the watcher's scan finds it `processing`
+and leaves it; after the release it is `enqueued` again and the next scan rejects it. -/
+example :
+    let cfg : Cfg := ⟨3, 1000, 1, 3000⟩
+    let x := runOps cfg { s := St.init 1700000000000 }
+      [.arrive 0, .tick, .arrive 1, .tick, .tickHold, .advance 1300, .idle]
+    let y := applyOp cfg x .tickRelease
+    x.s.loop = .refused 1 ∧ (x.s.reqs 1).st = .processing ∧ (x.s.reqs 1).res = .pending ∧
+    (x.s.reqs 1).arrival + cfg.ttl < x.s.now ∧
+    (y.s.reqs 1).res = .timeout ∧ (y.s.reqs 1).dones = 1 ∧ holds cfg y.s.trace.reverse = true := by
   decide +kernel
 
 /-! ### (D) shutdown releases every waiter and never crashes -/
